@@ -60,8 +60,8 @@ claim("C11",
       "std's UnexpectedEof-as-short-file convention is part of the model: a fault plan 'read fails with kind UnexpectedEof' is the in-band end-of-file signal of read_exact (no OS error decodes to that kind) and is excluded from the three main theorems by the premise `reportable p`; C11_absorbed_eof_only_first_read / C11_absorbed_read_is_short_read state what happens for it, and the correspondence check runs such plans too.",
       "Coq proof (invariant 'not fired or error' threaded through recovery) + checked model/code correspondence")
 claim("C12",
-      "Coq theorems (PropC12.v), END TO END: after any crash under any policy the recovered records of a batch are none, or all, or all above the highest later truncation - never a hole, never a missing tail (batch_crash, batch_crash_persisted, batch_crash_always, on top of the specification-level batch_all_or_nothing_spec); under CRC-detected damage the batch's entry is dropped as a whole and damage elsewhere leaves it intact (batch_damage_self, batch_damage_other); layers: codec soundness (a decoded batch is the whole batch), replay applies all records of an entry or fails, open on torn and on damaged files. For the real CRC-32 the crash half is subject to known finding F8 (a torn-off tail d ++ rawcrc(d) of the LAST record is accepted as zeros), reproduced on every run. Tied to the code by differential execution plus an oracle over crash cuts inside the batch's writes and payload / type-byte / checksum damage of its frames, in-phase batches included.",
-      'Crash theorems assume no_zero_collision (false for Crc.crc32: F8). Header-field damage (length, type byte): oracle only (F4 lives there).',
+      "Coq theorems (PropC12.v), END TO END: after any crash under any policy the recovered records of a batch are none, or all, or all above the highest later truncation - never a hole, never a missing tail (batch_crash, batch_crash_persisted, batch_crash_always, on top of the specification-level batch_all_or_nothing_spec); under CRC-detected damage the batch's entry is dropped as a whole and damage elsewhere leaves it intact (batch_damage_self, batch_damage_other); after power loss (batch_power, batch_power_persisted); under ARBITRARY damage inside one block, frame headers included, whenever open succeeds each queue holds a suffix of the batches of a sub-list of the written entries (C12_header_damage_suffix, under NoEmbeddedPath: F4 violates exactly that); layers: codec soundness (a decoded batch is the whole batch), replay applies all records of an entry or fails, open on torn and on damaged files. For the real CRC-32 the crash half is subject to known finding F8 (a torn-off tail d ++ rawcrc(d) of the LAST record is accepted as zeros), reproduced on every run. Tied to the code by differential execution plus an oracle over crash cuts inside the batch's writes and payload / type-byte / checksum damage of its frames, in-phase batches (also with the first frame on a record boundary, and with headers rewritten to empty frames) included.",
+      'Crash theorems assume no_zero_collision (false for Crc.crc32: F8). Header-field damage in several blocks at once: oracle only (F4 lives outside NoEmbeddedPath).',
       'Coq proof (spec-level suffix lemma + end-to-end crash and damage theorems) + checked model/code correspondence + crash/damage oracle')
 claim("C14",
       "Coq theorems (PropC14.v): one call, any history, clean drop and open are independent of the policy and of the OnDelay clock: identical outcomes (positions, eviction counts, errors, "
@@ -94,11 +94,11 @@ claim("C09",
 claim("C02",
       "Coq theorems (PropC02.v), END TO END for every checksum function without zero-completion collisions: C02_crash_atomic - from any state satisfying the global invariant, under a flush-per-operation "
       "policy, for EVERY crash image of a call (cut between any two file-system effects or after any number of bytes of any write) open succeeds and the recovered abstract state is that of the completed calls, "
-      "or that plus the in-flight call; C02_history from a fresh directory; the recovered log is fully usable (crash_recovered_usable: every continuation history refines the specification and a clean restart restores the state, over a junk-tolerant generalisation InvJ of the global invariant), a second crash during a later call or during the recovery's own effects recovers consistently (crash_recovered_crash, crash_recovered_self), histories with crashes anywhere (crash_histories) - for interrupted calls that neither roll over nor end in the last block of their file; layers: the I/O trace of a call and the shape of every crash image, open on a torn stream (short last file included), stream-level "
+      "or that plus the in-flight call; C02_history from a fresh directory; the recovered log is fully usable (crash_recovered_usable: every continuation history refines the specification and a clean restart restores the state, over a junk-tolerant generalisation InvJ of the global invariant), a second crash during a later call or during the recovery's own effects recovers consistently (crash_recovered_crash, crash_recovered_self), histories with crashes anywhere (crash_histories) - for calls of any geometry and every crash point except a strictly partial cut whose torn data end strictly inside the last block of the image's top file (jstate_crash_at3, crash_histories_at3); layers: the I/O trace of a call and the shape of every crash image, open on a torn stream (short last file included), stream-level "
       "torn-write theorems (torn_read keeps the collision alternative explicit and holds for the real CRC). For the REAL CRC-32 the property is refuted (PropC02x.v, known finding F8: CRC-32 is affine, a torn-off "
       "payload tail d ++ rawcrc(d) is accepted as zeros) - found by the vacuity audit of these very theorems and reproduced on the crate on every run. Tied to the code by differential execution on crash images "
       "cut before every kind of event (every unlink window and the end of the trace always included) and inside writes (block-boundary tears included), plus a crash oracle with continuation workload, restart, and a second crash 0-9 effects into the recovery.",
-      "Premise no_zero_collision (false for Crc.crc32: F8). Continued use / second crash when the interrupted call rolls over or ends in the last block of its file: stream level and oracle only. Kernel write ordering assumed as the property states.",
+      "Premise no_zero_collision (false for Crc.crc32: F8). Continued use / second crash for a strictly partial cut ending strictly inside the last block of the image's top file: stream level, exhaustive evaluation of examples and oracle only. Kernel write ordering assumed as the property states.",
       "Coq proof (trace and crash-image shape, open on torn streams, global invariant) + refutation for the real CRC + checked model/code correspondence + crash-image oracle")
 claim("C03",
       "Coq theorems (PropC03.v), END TO END under EVERY policy in both loss models: C03_process_crash / C03_power_loss - from a persist point followed by any further history under any policy, every image of "
